@@ -23,6 +23,10 @@ ARGS = {
     "pair": ("Pair(x, y): Pair", ["x", "y"], False, "let _p = x + y;", None),
     "t": ("t: T", ["t"], True, "let _t = t.clone();", "T: Clone"),
     "s": ("s: impl AsRef<str>", ["s"], True, "let _l = s.as_ref().len();", None),
+    # value-typed parameters spelled with a path / generic arguments: still recorded as values, not through Debug
+    "w": ("w: std::num::Wrapping<u32>", ["w"], False, "let _w = w.0;", None),
+    "qb": ("qb: ::core::primitive::bool", ["qb"], False, "let _q = !qb;", None),
+    "nz": ("nz: &std::num::NonZeroU16", ["nz"], False, "let _z = nz.get();", None),
 }
 
 # body templates: {pre} = statements using the optional arguments, {aw} = `helper().await;` for async, else empty
@@ -132,6 +136,9 @@ class Gen:
                 e["err_level"] = err_level.upper()
         if is_async:
             e["async"] = True
+        if "pair" in args:
+            # x and y are bound by a tuple-struct pattern: recorded with Debug although they are u64
+            e["debug_value_bindings"] = sum(1 for i in ("x", "y") if i not in skips and i not in custom)
         self.expect["generated::" + fn] = e
 
 
